@@ -255,7 +255,10 @@ class Quaternion(SMUserList):
         :seealso: :func:`~spatialmath.base.quaternions.matrix`
         """
 
-        return base.matrix(self._A)
+        if len(self) == 1:
+            return base.matrix(self._A)
+        else:
+            return np.array([base.matrix(q._A) for q in self])
 
 
     def conj(self):
